@@ -53,6 +53,18 @@ Theorem C07_one_response :
     /\ (is_indication r = true -> rsp = [PConfirmation]).
 Proof. exact one_response. Qed.
 
+(** PDUs that are not requests, commands or indications -- RESPONSES the client sends although the
+    server asked nothing (Error Response 0x01, Exchange MTU Response 0x03, every odd opcode), unknown
+    commands --, in any number: no answer and NO effect on the state, hence none on any later answer
+    (and by [C07_never_wedges_history] no lock either). *)
+Theorem C07_unsolicited_responses_ignored :
+  forall st o body hk, req_opcode o = false -> server_step st (UnknownOp o body) hk = (st, []).
+Proof. exact non_request_ignored. Qed.
+
+Theorem C07_response_opcodes_are_not_requests :
+  Forall (fun o => req_opcode o = false) [1; 3; 5; 7; 9; 11; 13; 15; 17; 19; 23; 25; 27; 33; 35; 96; 210].
+Proof. exact unsolicited_responses_ignored. Qed.
+
 (** Every PDU emitted while a request is handled fits ([pdu_fits]): a response in the MTU in force
     (>= 23 by [wf_state]), a notification / indication sent by a hook's update in the MTU of the GATT
     instance that sends it; for all hooks, whatever they return, raise or update. *)
